@@ -282,7 +282,8 @@ class DisciplineAdapter(MDOFunction):
 
                     self.__jacobian[output_slice, input_slice] = jac
 
-        return self.__jacobian
+        # Do not return the array that the next evaluation will overwrite.
+        return self.__jacobian.copy()
 
     def __create_input_names_to_slices(self) -> None:
         """Create the map from discipline input names to input vector slices.
